@@ -116,7 +116,7 @@ func (e *blockEnv) step(ins ssa.Instruction) {
 // C11fill: Fill's compaction, append and postcondition.
 func C11fill(p *load.Program, run *report.Run) {
 	run.Rule("fill-compaction", "before refilling, the unread window ReadBuf[ReadStart:ReadEnd] is moved to where the new ReadStart points and keeps its length; it is dropped only when empty")
-	run.Rule("fill-append", "the transport reads into ReadBuf[ReadEnd:] and ReadEnd advances by the count read, on the success edge only")
+	run.Rule("fill-append", "the transport reads into ReadBuf[ReadEnd:] and ReadEnd advances by the count read, either straight after the read (the count is valid whatever the error) or on the success edge")
 	run.Rule("fill-post", "Fill returns nil exactly when ReadStart+n <= ReadEnd")
 	fn, err := p.Method("p2p", "Conn", "Fill")
 	if err != nil {
@@ -279,7 +279,7 @@ func C11fill(p *load.Program, run *report.Run) {
 				for _, i2 := range b2.Instrs {
 					if st, ok := i2.(*ssa.Store); ok {
 						if fa, ok := st.Addr.(*ssa.FieldAddr); ok && fieldName(fa) == "ReadEnd" {
-							if bo, ok := st.Val.(*ssa.BinOp); ok && bo.Op == token.ADD && isFieldLoad(bo.X, "ReadEnd") && bo.Y == got && errV != nil && errNilAt(errV, b2) {
+							if bo, ok := st.Val.(*ssa.BinOp); ok && bo.Op == token.ADD && isFieldLoad(bo.X, "ReadEnd") && bo.Y == got && errV != nil && (errNilAt(errV, b2) || b2 == c.Block()) {
 								okAppend = true
 							}
 						}
@@ -289,9 +289,9 @@ func C11fill(p *load.Program, run *report.Run) {
 		}
 	}
 	if okAppend {
-		run.OK("fill-append", key, p.Rel(fn.Pos()), "Read(ReadBuf[ReadEnd:]); ReadEnd += got after err == nil")
+		run.OK("fill-append", key, p.Rel(fn.Pos()), "Read(ReadBuf[ReadEnd:]); ReadEnd += got")
 	} else {
-		run.Violate("fill-append", key, p.Rel(fn.Pos()), "ReadEnd does not advance by the count read on the success edge", nil)
+		run.Violate("fill-append", key, p.Rel(fn.Pos()), "ReadEnd does not advance by the count read", nil)
 	}
 	_ = load.Module
 }
